@@ -5,11 +5,16 @@ GEN   specs/federation/FedRoute.tla     Gen_FedRoute.cfg (every classified metho
                                         remotes x login cluster; invariants on the complete table)
 RUN   harness/C20_route_federation/route_driver_test.go  (real federation.Conn called by reflection; local =
                                         recording stub, remotes = real rpc.Conn -> HTTP -> real router -> recording stub)
-JUDGE specs/federation/FedRouteTrace.tla (FedRouteContract: the requested method reaches only the backend named by
-                                        the UUID prefix / cluster id, at most once; an unknown prefix never reaches a
-                                        remote; at a remote the caller's token is salted for that remote)
+JUDGE specs/federation/FedRouteTrace.tla      ROUTING clauses of FedRouteContract (the requested method reaches only the
+                                        backend named by the UUID prefix / cluster id, at most once; an unknown prefix
+                                        never reaches a remote).  Growth beyond every property statement: judged with
+                                        ctx.judge_as_drift, rejections are DRIFT lines, never a violation of C20.
+      specs/federation/FedRouteSaltTrace.tla  SALTING clause only (at a remote the caller's token is salted for that
+                                        remote, no leak, no foreign salt) = C19's statement: judged strictly by
+                                        salt_part(ctx), which checks/C19.py calls.
 
-Used by checks/C20.py (run_part); can also be run alone: python3 checks/C20_route.py --tier quick
+run_part(ctx) is used by checks/C20.py, salt_part(ctx) by checks/C19.py.
+Alone: python3 checks/C20_route.py --tier quick   (routing part, drift only)
 """
 import os
 import random
@@ -23,7 +28,8 @@ PAM = {"lib/controller/localdb/login_pam.go": "harness/stubs/login_pam_stub.go"}
 NOT_ROUTED_BY_OBJECT = {"ConfigGet", "Login", "Logout", "UserList", "UserSessionCreate", "UserSessionAuthInfo"}
 
 
-def run_part(ctx):
+def collect(ctx):
+    """GEN + RUN; returns (table rows, scenarios by id, events, number of traces)."""
     sd = "specs/federation"
     pkg = "lib/controller/federation"
     rnd = random.Random(ctx.seed + 77)
@@ -74,15 +80,29 @@ def run_part(ctx):
                 ctx.drift.append("FedRoute.tla predicted %s, code called %s (%s pfx=%s known=%s login=%s)"
                                  % (s["expect"], gotd, s["method"], s["pfx"], s["known"], s["login"]))
     events = [e for t in traces if not any(x["ev"] == "nomethod" for x in t) for e in t]
-    ctx.judge(sd, "FedRouteTrace", "Judge_FedRoute.cfg", events, scenario_of=by_id, timeout=900,
-              max_rejects=25 if ctx.thorough else 6)
     ctx.extra["route_traces"] = len(vlib.split_traces(events))
     ctx.extra["route_remote_calls"] = sum(1 for e in events if e["ev"] == "call" and e["dest"] != "local")
     ctx.trusted_base.append("routing part: reflection-based caller, recording APIStubs behind the real router, "
                             "method classes of FedRoute.tla (read off conn.go)")
-    ctx.assumptions.append("routing part: refusing (no call at all) is accepted; bookkeeping calls of other methods "
-                           "are not constrained; an unknown prefix may reach the local cluster, never a remote")
-    return len(traces)
+    return by_id, events
+
+
+def run_part(ctx):
+    """C20: routing clauses, DRIFT only."""
+    by_id, events = collect(ctx)
+    ctx.judge_as_drift("routing", "specs/federation", "FedRouteTrace", "Judge_FedRoute.cfg", events,
+                       scenario_of=by_id, timeout=900, max_rejects=10)
+    ctx.assumptions.append("routing part (drift only): refusing (no call at all) is accepted; bookkeeping calls of other "
+                           "methods are not constrained; an unknown prefix may reach the local cluster, never a remote")
+    return ctx.extra["route_traces"]
+
+
+def salt_part(ctx):
+    """C19: salting clause at every remote delivery of the routing traces, strict."""
+    by_id, events = collect(ctx)
+    ctx.judge("specs/federation", "FedRouteSaltTrace", "Judge_FedRoute.cfg", events, scenario_of=by_id, timeout=900,
+              max_rejects=25 if ctx.thorough else 6)
+    return ctx.extra["route_traces"]
 
 
 if __name__ == "__main__":
